@@ -1,5 +1,7 @@
 import ParryModel.C04.Theorems1
 import ParryModel.C04.Theorems2
+import ParryModel.C04.Theorems3
+import ParryModel.C04.Theorems4
 /-!
 # C04 property theorems (umbrella file)
 
@@ -7,4 +9,7 @@ import ParryModel.C04.Theorems2
   `clip_aabb_line`), 2-D segment, `toi_units`, posed = local ∘ inverse transform.
 * `Theorems2.lean` — composite shapes: the BVH pruning test / node weight `SimdAabb::cast_local_ray`, the per-cell step of
   the 3-D heightfield cast (nearer of the two triangles of a cell), soundness of the whole heightfield cast.
+* `Theorems3.lean` — `gjk::minkowski_ray_cast` over an abstract simplex (lower-bound / supporting-normal / miss certificates),
+  2-D ball, 2-D cuboid / Aabb and 2-D triangle casts, one step of the heightfield grid walk.
+* `Theorems4.lean` — composite shapes: best-first BVH ray cast = brute force over the parts (instantiates `C07.bestFirst_optimal`).
 -/
